@@ -111,7 +111,7 @@ def main():
                 apply_patch(d, drill["patch"])
             else:
                 apply_edit(d, drill)
-            tests_ok, tail = (None, "skipped") if a.no_tests else run_tests(d)
+            tests_ok, tail = (None, "skipped") if (a.no_tests or drill.get("no_tests")) else run_tests(d)
             props = drill["props"] if not (a.props and not a.patch) else [
                 p for p in drill["props"] if p in a.props.split(",")]
             for prop in props:
